@@ -70,12 +70,14 @@ def gen_ro_case(rng: random.Random, tier: str, backends=('dict',)) -> dict:
                     'sched_seed': None, 'obs_synced': True})
     prog = [{'actions': [{'sess': R, 'kind': how, 'mailbox': target}],
              'sched_seed': None, 'ro': True}]
+    delivered = False
     hi = 104 if demo else 100 + n_init + 1
     for _ in range(rng.randint(3, 20)):
         kind = rng.choices(['store', 'expunge', 'uidexpunge', 'fetch',
                             'search', 'copy', 'move', 'append_ro', 'noop',
-                            'check', 'w_into_ro', 'append_self'],
-                           [6, 3, 2, 6, 2, 2, 3, 2, 1, 1, 2, 2])[0]
+                            'check', 'w_into_ro', 'append_self',
+                            'w_delivers'],
+                           [6, 3, 2, 6, 2, 2, 3, 2, 1, 1, 2, 2, 2])[0]
         uid = rng.random() < 0.4
         the_set = uid_set(rng, 101, hi) if uid else seq_set(rng, 6)
         act = None
@@ -109,6 +111,18 @@ def gen_ro_case(rng: random.Random, tier: str, backends=('dict',)) -> dict:
                    'into_ro': True}
         elif kind in ('noop', 'check'):
             act = {'kind': kind}
+        elif kind == 'w_delivers' and target == 'INBOX':
+            # a third party with nothing selected delivers into the examined
+            # mailbox, in both runs: whoever is told \Recent must be the
+            # same with and without the read-only selection
+            tok = tokens.take()
+            prog.append({'actions': [{
+                'sess': W, 'kind': 'append', 'mailbox': 'INBOX',
+                'literal': 'litplus',
+                'msgs': [{'data': make_message(tok), 'token': tok}]}],
+                'sched_seed': None})
+            delivered = True
+            continue
         elif kind == 'append_self' and target == 'INBOX' and n_obs == 0:
             # a delivery made from inside the read-only selection into the
             # examined mailbox; the variant without the read-only program
@@ -152,12 +166,16 @@ def gen_ro_case(rng: random.Random, tier: str, backends=('dict',)) -> dict:
                  'ro': True})
     post = [{'actions': [{'sess': OBS0 + i, 'kind': 'noop'}
                          for i in range(n_obs)], 'sched_seed': None},
+            {'actions': [{'sess': OBS0 + i, 'kind': 'fetch', 'uid': False,
+                          'set': '1:*', 'attrs': ['UID', 'FLAGS']}
+                         for i in range(n_obs)], 'sched_seed': None},
             {'actions': [{'sess': W, 'kind': 'select', 'mailbox': target}],
              'sched_seed': None, 'final_select': True},
             {'actions': [{'sess': W, 'kind': 'fetch', 'uid': False,
                           'set': '1:*', 'attrs': ['UID', 'FLAGS']}],
              'sched_seed': None, 'final_fetch': True}]
-    return {'config': cfg, 'steps': pre + prog + post, 'target': target}
+    return {'config': cfg, 'steps': pre + prog + post, 'target': target,
+            'delivered': delivered}
 
 
 def _run_variant(case: dict, with_ro: bool, trace: bool):
@@ -196,11 +214,20 @@ def _run_variant(case: dict, with_ro: bool, trace: bool):
                          tuple(sorted(canon_flag(f) for f in
                                       r.data.get(b'FLAGS') or ())))
                         for r in cmd.untagged if r.name == b'FETCH')
-        if with_ro and obs_synced:
+        # (which of several read-write observers is told is the server's
+        # free choice: the union is what must not depend on the read-only
+        # selection)
+        result['obs_recent'] = sorted({
+            slot.uid for sid, cl in ctx.clients.items() if sid >= OBS0
+            for sel, slot, recent, _ in cl.shadow.flag_obs
+            if recent and slot.uid is not None})
+        if with_ro and obs_synced and not case.get('delivered'):
             for sid, cl in ctx.clients.items():
                 if sid < OBS0:
                     continue
                 for cmd in cl.history[getattr(cl, 'extra_mark', 0):]:
+                    if cmd.kind == 'fetch':
+                        continue    # the answer to its own closing FETCH
                     for r in cmd.untagged:
                         if r.name in (b'EXISTS', b'EXPUNGE', b'FETCH'):
                             ctx.violate(
@@ -267,11 +294,14 @@ class C12(Profile):
             'attributes/SEARCH/COPY/MOVE/APPEND into the read-only mailbox, '
             'plus another session copying/moving into it; without observers '
             'also APPEND into the examined mailbox itself, which run B '
-            'performs from a session with nothing selected), CLOSE; then a '
+            'performs from a session with nothing selected; and deliveries '
+            'by a third session into the examined mailbox, made in both '
+            'runs), CLOSE; then a '
             'read-write session SELECTs and FETCHes 1:* (UID FLAGS). Run B = '
             'the same case without R. Oracle: the final SELECT counts '
             '(EXISTS/RECENT/UNSEEN/UIDNEXT) and per-message flags incl. '
-            '\\Recent are identical; in run A the mutating commands answered '
+            '\\Recent are identical, and so is the set of UIDs the read-write '
+            'observers together were shown \\Recent; in run A the mutating commands answered '
             'NO, CLOSE answered OK, 0-2 observers got no EXISTS/EXPUNGE/'
             'FETCH. Non-trivial = R issued >= 3 commands.')
     assumptions = C01.assumptions + [
@@ -290,7 +320,7 @@ class C12(Profile):
         viol = [v for v in a['violations'] if v['property'] == 'C12']
         oa, ob = a['observed'], b['observed']
         if not viol and oa != ob:
-            for key in ('select_cond', 'select', 'final'):
+            for key in ('select_cond', 'select', 'final', 'obs_recent'):
                 if oa.get(key) != ob.get(key):
                     from sim.engine import Violation
                     viol.append(Violation(
